@@ -1604,6 +1604,24 @@ fn main() {
         }
         std::process::exit(0);
     }
+    if let Some(h) = args.extra.get("hex") {
+        // ad-hoc: --hex <bytes> --entry message|request|record|name|<type code> [--skip N]
+        let bytes = unhex(h);
+        let skip: usize = args.extra.get("skip").map(|s| s.parse().unwrap()).unwrap_or(0);
+        let entry = match args.extra.get("entry").map(|s| s.as_str()).unwrap_or("message") {
+            "message" => Entry::Message,
+            "request" => Entry::Request,
+            "record" => Entry::Record,
+            "name" => Entry::Name,
+            t => Entry::RData(t.parse().unwrap()),
+        };
+        match run.run(entry, skip, &bytes) {
+            Ran::Done(o) => println!("{:?} t={}ns bad_names={:?}", o.obs, o.nanos, o.bad_names),
+            Ran::Panicked(p) => println!("PANIC {p}"),
+            Ran::Hung => println!("HANG"),
+        }
+        std::process::exit(0);
+    }
     let mut cases = vec![];
     let total = n_big(thorough) + args.n;
     for index in 0..total {
